@@ -118,7 +118,10 @@ pub fn window_ok(order: &[usize], active: usize) -> bool {
     order.windows(2).all(|w| w[0] / active <= w[1] / active)
 }
 
-const STEP_T: Duration = Duration::from_millis(1500);
+// a deadline that is hit is a violation here, so it is generous (a case takes microseconds); after a few
+// deadline violations the remaining cases of the run are skipped instead of waiting for each of them
+const STEP_T: Duration = Duration::from_secs(15);
+static DEADLINES_HIT: std::sync::atomic::AtomicUsize = std::sync::atomic::AtomicUsize::new(0);
 
 async fn settle() {
     for _ in 0..40 {
@@ -171,7 +174,10 @@ async fn chan_case<M: Pat, C: Context>(sctx: C, rctx: C, c: &Case13) -> Result<(
             futures::join!(sends, recvs)
         }
     };
-    let (s, r) = tokio::time::timeout(STEP_T, both).await.map_err(|_| "the exchange did not complete (deadlock) although no more than the window of records was outstanding".to_string())?;
+    let (s, r) = tokio::time::timeout(STEP_T, both).await.map_err(|_| {
+        DEADLINES_HIT.fetch_add(1, std::sync::atomic::Ordering::SeqCst);
+        "the exchange did not complete (deadlock) although no more than the window of records was outstanding".to_string()
+    })?;
     s?;
     for (j, got) in r {
         match got {
@@ -294,7 +300,10 @@ async fn repoll_case<M: Pat, C: Context>(sctx: C, rctx: C, k: usize, active: usi
         v
     };
     let sends = join_all((0..k).map(|i| { let tx = &tx; async move { tx.send(RecordId::from(i), val(i)).await } }));
-    let (got, s) = tokio::time::timeout(STEP_T, futures::future::join(recvs, sends)).await.map_err(|_| "a receive request polled before the data arrived was never woken when it did (deadlock)".to_string())?;
+    let (got, s) = tokio::time::timeout(STEP_T, futures::future::join(recvs, sends)).await.map_err(|_| {
+        DEADLINES_HIT.fetch_add(1, std::sync::atomic::Ordering::SeqCst);
+        "a receive request polled before the data arrived was never woken when it did (deadlock)".to_string()
+    })?;
     for x in s {
         x.map_err(|e| format!("{e:?}"))?;
     }
@@ -465,6 +474,9 @@ fn run() {
                         // full permutation products for the narrow types and k <= 3 (4), selected orders beyond
                         let full = k <= if thorough { 5 } else { 4 };
                         for c in cases(k, active, full, &mut tag) {
+                            if DEADLINES_HIT.load(std::sync::atomic::Ordering::SeqCst) >= 3 {
+                                break;
+                            }
                             n += 1;
                             let s = ctxs[0].narrow(&format!("c{n}"));
                             let rc = ctxs[1].narrow(&format!("c{n}"));
@@ -476,14 +488,14 @@ fn run() {
                             }
                             out.push((ti, c, res));
                         }
-                        {
+                        if DEADLINES_HIT.load(std::sync::atomic::Ordering::SeqCst) < 3 {
                             n += 1;
                             let s = ctxs[0].narrow(&format!("c{n}"));
                             let rc = ctxs[1].narrow(&format!("c{n}"));
                             let res = std::panic::AssertUnwindSafe(async { for_types!(ti, repoll_case, s, rc, k, active, 5) }).catch_unwind().await.unwrap_or_else(|_| Err("panicked".into()));
                             out.push((ti, Case13 { k, indeterminate: false, send_order: (0..k).collect(), recv_order: (0..k.min(active)).rev().collect(), recv_first: true, recv_concurrent: true, active, tag: 5 }, res));
                         }
-                        if k >= 2 {
+                        if k >= 2 && DEADLINES_HIT.load(std::sync::atomic::Ordering::SeqCst) < 3 {
                             n += 1;
                             let s = ctxs[0].narrow(&format!("c{n}"));
                             let rc = ctxs[1].narrow(&format!("c{n}"));
